@@ -44,9 +44,20 @@ type caseDesc struct {
 	Style      string         `json:"style"`
 	BadMode    bool           `json:"with_unparseable_files"`
 	EmptySubFS bool           `json:"empty_subdirectory_in_fs,omitempty"`
+	// DirRule (with Custom): the acceptor also looks at the directory part of the path it is given and skips every path
+	// without one (a bare file name)
+	DirRule bool `json:"acceptor_looks_at_directory,omitempty"`
 }
 
 func (d caseDesc) accept(p string) ach.FileAcceptance {
+	if d.Custom && d.DirRule {
+		// what AcceptFile is given: with an fs.FS the path relative to dir (MergeDir works inside fs.Sub(FS, dir)),
+		// without one dir joined with the way down
+		if d.Mode == "fs" {
+			return acceptBelowDir(p)
+		}
+		return acceptBelowDir(path.Join("tmp", p))
+	}
 	if d.Custom {
 		return acceptCustom(p)
 	}
@@ -115,7 +126,8 @@ func drawCase(r *gen.Rand, idx int) (caseDesc, error) {
 	} else {
 		d.Dir = []string{"root", "root", ".", "top/root"}[r.Intn(4)]
 	}
-	d.Custom = r.Chance(1, 8)
+	d.Custom = r.Chance(1, 5)
+	d.DirRule = d.Custom && r.Bool()
 	d.OptsExt = []string{"", ".opts", ".opts", ".vopts"}[r.Intn(4)]
 	d.Reps = 1
 	if r.Chance(1, 5) {
@@ -172,6 +184,11 @@ func drawCase(r *gen.Rand, idx int) (caseDesc, error) {
 			return d, err
 		}
 		prefix := fmt.Sprintf("%c%02d", 'a'+rune(r.Intn(25)), i) // 'a'..'y': sorts before the zz directories
+		// stems ending in characters that also occur in extensions, or holding a dot of their own
+		prefix += []string{"", "", "", "h", "a", "batch", "tax", "t", ".v2", "x.t", "son", "."}[r.Intn(12)]
+		if strings.HasSuffix(prefix, ".") {
+			prefix += "d"
+		}
 		asJSON := r.Chance(1, 4)
 		needs := !badAt[i] && d.OptsExt != "" && r.Chance(1, 6)
 		kind := "nacha"
@@ -395,6 +412,9 @@ func runMergeDir(d caseDesc, rep int) (res runResult, hung bool) {
 	opts := &ach.MergeDirOptions{ParseWorkers: d.Workers, SubDirectories: d.SubDirs, ValidateOptsExtension: d.OptsExt}
 	if d.Custom {
 		opts.AcceptFile = acceptCustom
+		if d.DirRule {
+			opts.AcceptFile = acceptBelowDir
+		}
 	}
 	dir := d.Dir
 	cleanup := func() {}
